@@ -14,18 +14,18 @@ for commit, entries in by_commit.items():
     wt = f'/tmp/wt-rev-{commit}'
     subprocess.run(['git','-C','/repo','worktree','remove','--force',wt],capture_output=True)
     subprocess.run(['git','-C','/repo','worktree','add','-q','--detach',wt,'HEAD'],check=True)
-    r = subprocess.run(['git','revert','--no-commit',commit],cwd=wt,capture_output=True,text=True)
+    r = subprocess.run(['git','revert','--no-commit',commit],cwd=wt,capture_output=True,text=True,errors='replace')
     if r.returncode != 0:
         print(f'{commit}: revert conflict, skipped'); subprocess.run(['git','-C','/repo','worktree','remove','--force',wt]); continue
     e2 = dict(env, VERIF_REPO=wt)
     props = sorted(set(e['property'] for e in entries))
     for e in entries:
-        out = subprocess.run(['/verif/run.sh','--replay',e['witness']],cwd='/verif',env=e2,capture_output=True,text=True).stdout
+        out = subprocess.run(['/verif/run.sh','--replay',e['witness']],cwd='/verif',env=e2,capture_output=True,text=True,errors='replace').stdout
         verdict = 'VIOLATION' if 'VIOLATION property=' in out else ('PASS(!)' if 'REPLAY-PASS' in out else 'INCONCLUSIVE')
         print(f"{commit} {e['property']} {e['id']:5s} witness -> {verdict}")
     for p in props:
         e3 = dict(e2, VERIF_NOKNOWN='1')
-        res = subprocess.run(['/verif/run.sh',p,'quick'],cwd='/verif',env=e3,capture_output=True,text=True)
+        res = subprocess.run(['/verif/run.sh',p,'quick'],cwd='/verif',env=e3,capture_output=True,text=True,errors='replace')
         n = res.stdout.count('VIOLATION property=')
         first = [l for l in res.stdout.splitlines() if l.startswith('  ') ][:2]
         print(f"{commit} {p} generated quick tier -> exit {res.returncode}, {n} violation lines", '|', ' '.join(x.strip()[:110] for x in first))
